@@ -123,7 +123,8 @@ def run_config(ctx, prog, features, label='default'):
             continue
         ctx.violation('coverage', pre + short(p), 'unvisited', 'local body is neither visited by the instantiation walk nor excused: new code would hide from the enumeration', span=f.span if f else None)
     if label == 'default':
-        ctx.floor('coverage', 'visited_bodies', len(reach['visited_local_bodies']), 340)
+        # a lower bound against a vacuous walk, not a count of today's bodies (a clean-up that replaces closures by generic helpers lowers it)
+        ctx.floor('coverage', 'visited_bodies', len(reach['visited_local_bodies']), 250)
         ctx.floor('coverage', 'instances_walked', reach['n_instances'], 1000)
     sites, trusted_used = enumerate_sites(ctx, prog, features)
     if label == 'default':
